@@ -193,3 +193,29 @@ def reuse(ctx, module, rule_prefixes, new_rule):
             n += 1
     ctx.functions |= sub.functions
     return n
+
+
+_SUB_CACHE = {}
+
+
+def sub_obligations(ctx, module):
+    """obligations of another property's module on the same program (cached per program object)"""
+    key = (id(ctx.prog), module.__name__)
+    if key not in _SUB_CACHE:
+        sub = Ctx(ctx.prop, ctx.prog, ctx.tier, ctx.meta)
+        module.check(sub)
+        _SUB_CACHE[key] = sub
+    return _SUB_CACHE[key]
+
+
+def adopt(ctx, module, pred, new_rule):
+    """adopt the obligations of `module` selected by pred(obligation) under new_rule; returns the number adopted"""
+    sub = sub_obligations(ctx, module)
+    n = 0
+    for o in sub.obligations:
+        if pred(o):
+            ctx._rec(new_rule, o["key"], o["where"], o["detail"], o["ok"], o["path"])
+            ctx.obligations[-1]["key"] = "%s<=%s" % (new_rule, o["key"])
+            n += 1
+    ctx.functions |= sub.functions
+    return n
